@@ -95,6 +95,47 @@ class Roles:
                     if adt_ty == self.inner_ty:
                         self.writers.setdefault(k, set()).add(fld)
                         self.all_writes.append((k, fld, sp["line"], kind))
+        # a writer split into parts that are private to the state's module (`toggle_piece_sets` + `toggle_key` behind
+        # `xor_square`): the writers the rest of the program sees are the methods that call the parts; the parts
+        # themselves are read inlined there
+        self.direct_writers = dict(self.writers)
+        import re as _re
+        from ..facts import callee_name
+        own_module = self.inner_ty.rsplit("::", 1)[0].split("::", 1)[-1]
+
+        def private(k):
+            m_ = _re.match(r"Restricted\(DefId\([^~]*~ [^:]*::(.*)\)\)$", (f.fns.get(k) or {}).get("vis", ""))
+            return bool(m_ and m_.group(1) == own_module)
+        callers_of = {}
+        for k2, b2 in f.bodies.items():
+            for _, t in b2.calls():
+                cn = callee_name(t)
+                if cn:
+                    callers_of.setdefault(cn, set()).add(k2.split("::{closure")[0])
+        self.private_parts = set()
+        for w in sorted(self.direct_writers):
+            if not private(w) or f.bodies[w].j.get("impl_self") != self.inner_ty:
+                continue
+            seen, work, fronts, ok = {w}, [w], set(), True
+            while work and ok:
+                k = work.pop()
+                for c in callers_of.get(k, ()):
+                    cb = f.bodies.get(c)
+                    if cb is None or cb.j.get("impl_self") != self.inner_ty:
+                        ok = False
+                        break
+                    if private(c):
+                        if c not in seen:
+                            seen.add(c)
+                            work.append(c)
+                    else:
+                        fronts.add(c)
+            if ok and fronts:
+                self.private_parts.add(w)
+                for c in fronts:
+                    self.writers.setdefault(c, set()).update(self.direct_writers[w])
+        for w in self.private_parts:
+            self.writers.pop(w, None)
 
 
 def raise_missing(ctx, msg):
